@@ -176,6 +176,11 @@ _public_ m_thpool_t *m_thpool_new(uint8_t thread_count, m_thpool_flags flags) {
         pool->flags = flags;
 
         err = 0;
+        /*
+         * From here on workers may be running: mark the pool as started before creating them,
+         * so that destroying it after a partial failure first stops and joins the ones that did start.
+         */
+        pool->init_state |= INITED_STARTED;
         if (!(flags & M_THPOOL_LAZY)) {
             /* Start worker threads */
             err = add_threads(pool, thread_count);
@@ -185,8 +190,6 @@ _public_ m_thpool_t *m_thpool_new(uint8_t thread_count, m_thpool_flags flags) {
     /* Something went wrong; destroy */
     if (err != 0) {
         m_thpool_free(&pool, false);
-    } else {
-        pool->init_state |= INITED_STARTED;
     }
     return pool;
 }
